@@ -279,7 +279,7 @@ PROPS["C02"] = {
     "title": "Every started hit yields exactly one result and the attack ends cleanly",
     "units": [{"name": "bubble", "pkg": "libsync", "go": "go1.26.8", "run": "^TestC02(Random|Exhaustive|TwoAttacks)", "scale_thorough": 6},
               {"name": "stoprace", "pkg": "lib", "run": "^TestC02StopRace", "shards_quick": 2, "shards_thorough": 8},
-              {"name": "dialpath", "pkg": "lib", "run": "^TestC02DialPath", "shards_quick": 2, "shards_thorough": 8},
+              {"name": "dialpath", "pkg": "lib", "run": "^TestC02(DialPath|SourceFails)", "shards_quick": 2, "shards_thorough": 8},
               {"name": "loopends", "pkg": "libsync", "go": "go1.26.8", "run": "^TestC04Loop", "env": {"VERIF_AS": "C02"}, "shards_quick": 2, "shards_thorough": 8},
               {"name": "pump", "pkg": "main", "run": "^TestC02", "shards_quick": 1, "shards_thorough": 4}],
     "rule": "Histories over the alphabet {tick, pacer-stop, complete(oldest/newest/any), consume, Stop by 1..8 callers, "
